@@ -268,16 +268,102 @@ def r12_4(rep: Report) -> None:
             else:
                 rep.fail(rid, c, 'first period starts at 0', 'running start is not initialised to 0', fn)
         else:
-            if init and norm(init[-1].value) == 'duration * num_loops':
+            # roles: D = total duration of one pass (`<mps>.total_duration()`), L0 = number of whole
+            # passes before the window (`int(firstAvailableTime // D)`), idx = what selects the stored
+            # period in the loop, and the id suffix
+            def single_def(name: str):
+                ds = [n for n in ast.walk(fn) if isinstance(n, (ast.Assign, ast.AnnAssign)) and getattr(n, 'value', None) is not None
+                      and norm(n.targets[0] if isinstance(n, ast.Assign) else n.target) == name
+                      and not any(x is n for x in ast.walk(loop))]
+                return ds[0].value if len(ds) == 1 else None
+            D = next((norm(n.targets[0] if isinstance(n, ast.Assign) else n.target) for n in fn.body
+                      if isinstance(n, (ast.Assign, ast.AnnAssign)) and getattr(n, 'value', None) is not None
+                      and isinstance(n.value, ast.Call) and (call_name(n.value) or '').endswith('total_duration')), None)
+            L0 = None
+            for n in fn.body:
+                if isinstance(n, (ast.Assign, ast.AnnAssign)) and getattr(n, 'value', None) is not None:
+                    v = n.value
+                    from ..core import subst_locals as _sl
+                    if isinstance(v, ast.Call) and call_name(v) == 'int' and v.args and isinstance(v.args[0], ast.BinOp) \
+                            and isinstance(v.args[0].op, ast.FloorDiv) \
+                            and 'firstAvailableTime' in norm(_sl(fn, v.args[0].left)) \
+                            and D is not None and D in norm(v.args[0].right):
+                        L0 = norm(n.targets[0] if isinstance(n, ast.Assign) else n.target)
+            ok_init = False
+            if init and D and L0:
+                iv = init[-1].value
+                if isinstance(iv, ast.BinOp) and isinstance(iv.op, ast.Mult) \
+                        and {norm(iv.left), norm(iv.right)} == {D, L0}:
+                    ok_init = True
+            if ok_init:
                 rep.ok(rid, c, 'first listed loop starts at loops * total duration')
             else:
                 rep.fail(rid, c, 'first listed loop starts at loops * total duration',
-                         'live running start is not num_loops * total duration', fn)
-            if 'period.id = f\'{period.id}_{num_loops}\'' in norm(fn):
+                         'live running start is not (whole passes before the window) * (total duration of one pass)', fn)
+            # every listed Period is an object made in this iteration: the Period that is given the running
+            # start and the id is, on every assignment inside the loop, the result of a call (create_period /
+            # a constructor), possibly through one local copy - never an object kept from an earlier pass
+            stale = []
+            pnames = set(aliases)
+            for n in ast.walk(loop):
+                tg = []
+                if isinstance(n, ast.Assign):
+                    tg = n.targets
+                elif isinstance(n, ast.AnnAssign) and n.value is not None:
+                    tg = [n.target]
+                for t in tg:
+                    if isinstance(t, ast.Name) and t.id in pnames:
+                        v = n.value
+                        fresh = isinstance(v, ast.Call) or (isinstance(v, ast.Name) and v.id in pnames)
+                        if not fresh:
+                            stale.append(n)
+            if not stale:
+                rep.ok(rid, c, 'each listed period is a new object')
+            else:
+                rep.fail(rid, c, 'each listed period is a new object',
+                         f'`{short(stale[0], 60)}`: the Period that is given a start and an id in this iteration is an '
+                         'object kept from an earlier iteration; it is already in self.periods, so the earlier '
+                         'repetition is silently rewritten (duplicate ids, a start later than its successor)',
+                         stale[0])
+            # id suffix: constant within one pass over the stored periods, one more for the next pass
+            idset = [n for n in ast.walk(loop) if isinstance(n, ast.Assign) and isinstance(n.targets[0], ast.Attribute)
+                     and n.targets[0].attr == 'id' and isinstance(n.value, ast.JoinedStr)]
+            suffix = None
+            if idset and isinstance(idset[0].value.values[-1], ast.FormattedValue):
+                suffix = idset[0].value.values[-1].value
+            idx_names = {norm(n.slice) for n in ast.walk(loop) if isinstance(n, ast.Subscript)
+                         and isinstance(n.slice, ast.Name) and isinstance(n.ctx, ast.Load)}
+            unique = False
+            why = 'no `<period>.id = f"..._{<pass number>}"` in the loop'
+            if suffix is not None and L0:
+                why = f'the suffix `{norm(suffix)}` is not the number of the pass being listed'
+                # (A) a counter that starts at L0 and is incremented exactly when the index wraps to 0
+                if isinstance(suffix, ast.Name) and suffix.id == L0:
+                    for n in ast.walk(loop):
+                        if isinstance(n, ast.If) and any(i in norm(n.test) for i in idx_names) and any(
+                                isinstance(x, ast.AugAssign) and norm(x.target) == L0 and isinstance(x.op, ast.Add)
+                                and norm(x.value) == '1' for x in n.body):
+                            unique = True
+                # (B) L0 + q with (q, idx) = divmod(count, len(periods)) and count += 1 per iteration
+                if isinstance(suffix, ast.BinOp) and isinstance(suffix.op, ast.Add):
+                    parts = {norm(suffix.left), norm(suffix.right)}
+                    if L0 in parts:
+                        q = next(iter(parts - {L0}), None)
+                        for n in ast.walk(loop):
+                            if isinstance(n, ast.Assign) and isinstance(n.targets[0], ast.Tuple) \
+                                    and len(n.targets[0].elts) == 2 and isinstance(n.value, ast.Call) \
+                                    and call_name(n.value) == 'divmod' and len(n.value.args) == 2 \
+                                    and norm(n.targets[0].elts[0]) == q and norm(n.targets[0].elts[1]) in idx_names \
+                                    and norm(n.value.args[1]).startswith('len('):
+                                cnt = norm(n.value.args[0])
+                                if any(isinstance(x, ast.AugAssign) and norm(x.target) == cnt and isinstance(x.op, ast.Add)
+                                       and norm(x.value) == '1' for x in ast.walk(loop)):
+                                    unique = True
+            if unique:
                 rep.ok(rid, c, 'period ids unique per repetition')
             else:
                 rep.fail(rid, c, 'period ids unique per repetition',
-                         'live period ids are not suffixed with the loop count', fn)
+                         f'live period ids are not suffixed with the loop count ({why})', fn)
 
 
 def r12_5(rep: Report) -> None:
